@@ -36,22 +36,28 @@ type c35Case struct {
 	Server   string   `json:"server"` // server id / method
 	Bus      bool     `json:"bus"`    // also exercise the resolved value on a real bus
 	Patterns []string `json:"patterns"`
+	// Bystander (rpc, with Bus; 0 = none): another lookup of the same service id for server id c35Servers[Bystander-1]
+	// is already running on the bus when the tested lookup is made
+	Bystander int `json:"bystander,omitempty"`
 }
+
+var c35Servers = []string{"", "a", "b", "ab"}
 
 var idGen = rapid.StringMatching(`[ab/]{0,5}`)
 var reGen = rapid.SampledFrom([]string{"", "", "", "^a", "b$", "^/a/.*", "a|b", "^$", "^[ab]+$", "/"})
 
 func genC35(t *rapid.T) c35Case {
 	c := c35Case{
-		Kind:     rapid.SampledFrom([]string{"rpc", "rpc", "invoker", "http", "http", "mux"}).Draw(t, "kind"),
-		Prefixes: rapid.SliceOfN(rapid.StringMatching(`[ab/]{1,3}`), 0, 3).Draw(t, "prefixes"),
-		Regex:    reGen.Draw(t, "regex"),
-		List:     rapid.SliceOfN(idGen, 0, 2).Draw(t, "list"),
-		ServerRe: reGen.Draw(t, "serverre"),
-		Strip:    rapid.Bool().Draw(t, "strip"),
-		ID:       idGen.Draw(t, "id"),
-		Server:   rapid.SampledFrom([]string{"", "a", "b", "ab"}).Draw(t, "server"),
-		Bus:      rapid.IntRange(0, 3).Draw(t, "bus") == 0,
+		Kind:      rapid.SampledFrom([]string{"rpc", "rpc", "invoker", "http", "http", "mux"}).Draw(t, "kind"),
+		Prefixes:  rapid.SliceOfN(rapid.StringMatching(`[ab/]{1,3}`), 0, 3).Draw(t, "prefixes"),
+		Regex:     reGen.Draw(t, "regex"),
+		List:      rapid.SliceOfN(idGen, 0, 2).Draw(t, "list"),
+		ServerRe:  reGen.Draw(t, "serverre"),
+		Strip:     rapid.Bool().Draw(t, "strip"),
+		ID:        idGen.Draw(t, "id"),
+		Server:    rapid.SampledFrom([]string{"", "a", "b", "ab"}).Draw(t, "server"),
+		Bus:       rapid.IntRange(0, 3).Draw(t, "bus") == 0,
+		Bystander: rapid.IntRange(0, 4).Draw(t, "bystander"),
 	}
 	// make matches likely: often build the id from a prefix
 	if len(c.Prefixes) > 0 && rapid.Bool().Draw(t, "useprefix") {
@@ -157,6 +163,15 @@ func checkC35(c c35Case) (o vstat.Outcome) {
 			}
 			ctx, cancel := context.WithTimeout(context.Background(), 20*time.Second)
 			defer cancel()
+			if c.Bystander != 0 && c35Servers[c.Bystander-1] != c.Server {
+				_, bref, berr := tb.Bus.AddDirective(bifrost_rpc.NewLookupRpcService(c.ID, c35Servers[c.Bystander-1]), nil)
+				if berr != nil {
+					o.Discard = true
+					return nil
+				}
+				defer bref.Release()
+				o.Classes = append(o.Classes, "lookup-for-another-server-id-running")
+			}
 			rel, err := tb.Bus.AddController(ctx, ctrl, nil)
 			if err != nil {
 				o.Discard = true
